@@ -78,15 +78,22 @@ func (r *Result) sample(s interface{}) {
 
 func (r *Result) fail(sig, what string, input interface{}) {
 	r.NFailures++
-	// keep at most 3 per signature, 40 in total, smallest inputs first come first
-	n := 0
-	for _, f := range r.Failures {
+	// keep at most 3 per signature (the smallest inputs seen, by encoded size), 60 in total
+	size := func(x interface{}) int { b, _ := json.Marshal(x); return len(b) }
+	n, worst, worstSize := 0, -1, -1
+	for i, f := range r.Failures {
 		if f.Signature == sig {
 			n++
+			if s := size(f.Input); s > worstSize {
+				worst, worstSize = i, s
+			}
 		}
 	}
-	if n < 3 && len(r.Failures) < 40 {
+	switch {
+	case n < 3 && len(r.Failures) < 60:
 		r.Failures = append(r.Failures, Failure{sig, what, input})
+	case n >= 3 && size(input) < worstSize:
+		r.Failures[worst] = Failure{sig, what, input}
 	}
 }
 
@@ -135,7 +142,7 @@ func (r *Rand) intn(n int) int {
 	}
 	return int(r.u64() % uint64(n))
 }
-func (r *Rand) rng(lo, hi int) int { return lo + r.intn(hi-lo+1) } // inclusive
+func (r *Rand) rng(lo, hi int) int     { return lo + r.intn(hi-lo+1) } // inclusive
 func (r *Rand) coin(num, den int) bool { return r.intn(den) < num }
 func (r *Rand) pick(xs []int) int      { return xs[r.intn(len(xs))] }
 func (r *Rand) bytes(n int) []byte {
